@@ -20,7 +20,7 @@ CLAIMS = {
  'C02': C('other', 'moment-table matching, collecting semantics over loop-body CFGs (must-write on every exit), symbolic field-state execution',
    STRUCT + 'Here: density/mean radius/volume fraction are assigned from the moments of the stated order of the distribution passed in, the re-used record is completely rewritten on every path (empty phase, early exits of the nucleation routine), truncation precedes recording, nuclei enter one class of a telescoping upwind stencil, the grid is extended whenever the last class fills, and the class removals applied before and after agree.',
    'Equality of histories and moments along a run and the dissolution bound are not decided.', '4/C02'),
- 'C03': C('other', 'table agreement, ownership, definite assignment over a statement CFG (whole package), null-flow with branch facts, must-precede dataflow',
+ 'C03': C('other', 'table agreement, ownership, definite assignment over a statement CFG (whole package), null-flow with branch facts, must-precede dataflow, contradiction rule on None tests of never-None dictionaries',
    STRUCT + 'Here: one attribute table drives creation/append/slice/save/load of all histories, nothing outside PrecipitationData rebinds a history, every local is definitely assigned on every path of every function (763), every use of a may-return-None backend result is guarded, volume-fraction stores are bounded, the growth array follows the size-class grid, and the solver clock contract (C05) holds.',
    'Finiteness and ranges of recorded values for all configurations are not decided; Surrogate.py is outside the null-flow rule (correlated branches).', '4/C03'),
  'C04': C('other', 'slice typing of the flux form, boundary-table matching, symbolic execution of setup() under the is-setup flag, ownership',
@@ -35,7 +35,7 @@ CLAIMS = {
  'C07': C('other', 'slice typing of vectorised stencils (telescoping first difference, upwind alignment, limiter table), formula matching, purity',
    STRUCT + 'Here: both transport functions return F[:-1]-F[1:] of one freshly zeroed face array plus nucRate in the class containing the nucleation radius (sum telescopes exactly), each face term couples growth, population and sign mask of the same slice, the limiter clamps all bins+1 faces by -/+psd/dt, and the step limit is ratio*width/max|growth| over populated classes above the dissolution index.',
    'Non-negativity for all step sizes and dynamic ranges is a numeric consequence, not decided; a rewrite as explicit loops is reported as undecided.', '4/C07'),
- 'C08': C('other', 'symbolic field-state execution of every grid-writing method (all paths), structural comparison of final terms, order-domain evaluation of np.pad widths',
+ 'C08': C('other', 'symbolic field-state execution of every grid-writing method (all paths), structural comparison of final terms, order-domain evaluation of np.pad widths, ownership and ordering of the backup snapshot',
    STRUCT + 'Here: on exit of every grid operation, for every entry state, centres are midpoints of the final boundaries and boundaries/min/max/bins agree; extend is prefix preserving; re-mesh multiplies the interpolated distribution by old/new third moment and nothing else; adaptive adjustment ends at minBins/maxBins or below the maximum; reset restores the originals; *FromN moments depend only on their argument; a loaded grid is rebuilt from the saved scalars.',
    'Strict monotonicity of boundaries, exactness of the rescaled moment in floating point and minBins<=maxBins are not decided.', '4/C08'),
  'C09': C('other', 'interprocedural may-alias/purity analysis with numpy view tables, symbolic execution of the cache switch, key/argument agreement, must-pass-through',
@@ -50,7 +50,7 @@ CLAIMS = {
  'C13': C('other', 'symbolic execution of constructor vs setter (path-wise equality), typestate of the refresh rule, evaluation-site def-use, sibling agreement',
    STRUCT + 'Here: constructor and setter of TemperatureParameters leave the same flag/parameters on every argument shape, the three setters set the isothermal flag, the accumulated temperature change is incremented before the test and (rebuild <=> reset) on every path with the current temperature, the accumulator is zeroed nowhere else without a full rebuild, every stored temperature is the schedule at the time stored in the same record (time written => temperature written), both schedule classes interpolate t/3600.',
    'Closeness of tabulated compositions to an independent evaluation is not decided.', '4/C13'),
- 'C14': C('other', 'cache-freshness by symbolic execution of all methods (caches discovered from lazy-property idiom), exact sympy identities on extracted formulas incl. sibling agreement of the barrier at a clamped radius, mask structure',
+ 'C14': C('other', 'cache-freshness by symbolic execution of all methods (caches discovered from lazy-property idiom), exact sympy identities on extracted formulas incl. sibling agreement of the barrier at a clamped radius, mask structure, index agreement of per-phase moments, shared-state rule (T-SHARED)',
    STRUCT + 'Here: every lazily cached factor is None after any write of gamma/gbEnergy/site type; area - 2k*removed - 3*volume == 0, the k=0 limits and the reduction of Rcrit/Gcrit to the classical values are exact identities of the extracted formulas; outputs are zero-initialised and written only under the positive-driving-force / non-zero masks; occupied sites are summed over all phases of the same site type and returned through max(.,0).',
    'Finiteness, monotonicity in dG and k and the incubation factor range are not decided. F25 (boundary-site barrier negative at a radius raised to the minimum radius) is a recorded known finding: its one-line repair changes a value pinned by an existing test.', '4/C14'),
  'C15': C('other', 'alias/purity analysis, exact sympy identities and one-sided limits on extracted closed forms, dtype rule, derived-state rule, mode-flag must-assign analysis (T-MODEFLAG), path analysis of the bisection loop',
@@ -59,16 +59,16 @@ CLAIMS = {
  'C16': C('other', 'derived-state freshness by symbolic execution, literal evaluation of quadrature tables with exact trigonometry, exact replay of modulus conversions, non-commutative operator normal forms, tensor-index bookkeeping of the rotations, degree-of-homogeneity inference for the Eshelby integral, weight typing of the 6x6 (Voigt) forms, shared class-level state rule (T-SHARED)',
    STRUCT + 'Here: the rotated tensors are recomputed after every write of a rotation/stiffness (order independence); quadrature weights sum to 1 with the orbit multiplicities, point counts are the documented ones and the closed A-orbits are the octahedral orbits, the C-orbit generator/table contract holds (known finding F21: it does not); all 15 modulus conversions reproduce (E,nu,G); Voigt maps are inverse tables; fourth-rank and 6x6 energy routines are the same operator expression; Dijkl is homogeneous of degree 0 in the radii (every sum adds terms of equal degree); every contraction of 6x6 / 6-vector forms pairs a plain axis with a shear-weighted one (necessary for the 6x6 = fourth-rank clause and for the homogeneous-inclusion limit).',
    'Positivity, rotation invariance and closed forms are not decided (of the scaling laws only the degree of homogeneity of the Eshelby integral is). F21 (Lebedev orbits) is a recorded known finding: its repair changes values pinned by 3 existing tests.', '4/C16'),
- 'C17': C('other', 'taint rule for phase addressing, symmetric-axis rule, dispatch tables decided by symbolic execution, must-pass-through of post-processing on the loop-body CFG, formula shape with the phase sum as opaque linear operator, purity',
+ 'C17': C('other', 'taint rule for phase addressing, must-analysis of the fallback to the database phase list, guarded position lookups (T-NAMEINDEX), symmetric-axis rule, dispatch tables decided by symbolic execution, must-pass-through of post-processing on the loop-body CFG, formula shape with the phase sum as opaque linear operator, purity',
    STRUCT + 'Here: rows of the per-stable-phase arrays are never selected by a position in the database phase list and the stable phase names travel with the arrays; averaging rules consume the phase axis only by reductions; keyword/id/function registries are total and map to namesakes; Wiener/labyrinth/Hashin-Shtrikman have the stated form with the sum taken before the non-linear map; averaging rules do not write into the cached arrays.',
    'Ordering of the bounds and their values are not decided.', '4/C17'),
  'C18': C('other', 'sibling sanitising rule, symbolic execution of history growth, must-precede and must-pass-through dataflow on the CFG (solve before every normal exit), formula/prefactor agreement, purity',
    STRUCT + 'Here: weak/strong/Orowan arrays pass the same negative|non-finite mask; each strength history grows by exactly one entry per host step on every path and the host updates coupled models once per step after its record; grain growth is solved over exactly the host step; strength = M*min(weak,strong,Orowan) without rescaling its arguments; Zener drag carries the growth-law prefactor and freezes the band.',
    'Positivity/monotonicity of the individual formulas and grain-volume conservation are not decided.', '4/C18'),
- 'C19': C('other', 'attribute-protocol check against the class hierarchy, symbolic execution of the latch, product of the or/and fold (transfer function tabulated over a finite domain) with the specification automaton, class-specialised method views, table rules, solver typestate',
-   'The stopping protocol is shape and is decided on all paths: every attribute a condition reads exists on the host, a met condition is never re-evaluated and its time is written with the transition only (exact interpolation formula), every registered condition is polled on every step and the stop flag equals (any or-condition met) or (some and-condition and all of them met) for registries of every length (reachable states of the fold explored in product with the specification automaton), each condition reads the history of its name with the selection it was given, the solver ends on the returned flag, the TTP calculator resets before every run.',
+ 'C19': C('other', 'attribute-protocol check against the class hierarchy, symbolic execution of the latch, product of the or/and fold (transfer function tabulated over a finite domain) with the specification automaton, class-specialised method views, path rule for the interpolated crossing time, table rules, solver typestate',
+   'The stopping protocol is shape and is decided on all paths: every attribute a condition reads exists on the host, a met condition is never re-evaluated and its time is written with the transition only (exact interpolation formula, stored only on paths where the condition was tested at the previous step and not met), every registered condition is polled on every step and the stop flag equals (any or-condition met) or (some and-condition and all of them met) for registries of every length (reachable states of the fold explored in product with the specification automaton), each condition reads the history of its name with the selection it was given, the solver ends on the returned flag, the TTP calculator resets before every run.',
    'That the interpolated crossing time lies inside the step is numeric and not decided.', '4/C19'),
- 'C20': C('other', 'delegation/forwarding agreement, save/load key-table agreement per class (super chain and class-level tables resolved), row-preservation dataflow from the stored training data to the kernel, symbolic execution of toDict under present/absent recordings, must-analysis of key presence on the CFG, JSON/ndarray type agreement of the refit path, argument-normalisation rule of the getters, protocol check',
+ 'C20': C('other', 'delegation/forwarding agreement, save/load key-table agreement per class (super chain and class-level tables resolved), row-preservation dataflow from the stored training data to the kernel, symbolic column-interval agreement of the curvature pack/unpack layout, symbolic execution of toDict under present/absent recordings, must-analysis of key presence on the CFG, JSON/ndarray type agreement of the refit path, argument-normalisation rule of the getters, protocol check',
    STRUCT + 'Here: every untrained surrogate getter returns its namesake on the thermodynamics object with all its own parameters, internal delegations forward the phase selection; save and load agree on their key tables for precipitation, diffusion, surrogate and strength models; recordings are saved exactly when they exist and None is never saved; every thermodynamics method the precipitation model calls exists on all four thermodynamics/surrogate classes.',
    'Exact reproduction of array contents and interpolation at training points are not decided.', '4/C20'),
 }
